@@ -236,6 +236,10 @@ pub fn bound_alphabet() -> Vec<Vec<(String, Option<f64>)>> {
         vec![b("LO", Some(0.0)), b("UP", Some(1.0))],
         vec![b("UP", Some(5.0)), b("LO", Some(-1.0))],
         vec![b("LI", Some(-3.0)), b("UI", Some(7.0))],
+        vec![b("LO", Some(-10.0)), b("UP", Some(-2.0))],
+        vec![b("UP", Some(-2.0)), b("LO", Some(-10.0))],
+        vec![b("MI", None), b("UP", Some(-2.0))],
+        vec![b("UP", Some(1e30))],
     ]
 }
 
@@ -247,11 +251,16 @@ struct Names {
     foreign_cols: bool,
     foreign_rows: bool,
     obj: &'static str,
+    /// mixed: the LAST column / row gets a foreign name although the others are OMMX_-tagged
+    /// (tag ids start at 0 so that order-based ids would collide with recovered ones)
+    mixed: bool,
 }
 
 fn make_lp(rows: &[(char, Option<f64>, Option<f64>)], cols: &[(bool, Vec<(String, Option<f64>)>)], obj_rhs: Option<f64>, sense: SenseSpec, names: &Names, sparsity: usize) -> Lp {
-    let row_ids = [3u64, 40, 5, 12, 7];
-    let col_ids = [5u64, 1, 12, 2, 9, 30];
+    let row_ids: [u64; 5] = if names.mixed { [0, 1, 2, 3, 4] } else { [3, 40, 5, 12, 7] };
+    let col_ids: [u64; 6] = if names.mixed { [0, 1, 2, 3, 4, 5] } else { [5, 1, 12, 2, 9, 30] };
+    let nrows = rows.len();
+    let ncols = cols.len();
     let row_names_f = ["LIM1", "R_2", "ROWC", "r4", "E5"];
     let col_names_f = ["X1", "YTWO", "z3", "W_4", "V5", "U6"];
     Lp {
@@ -263,7 +272,7 @@ fn make_lp(rows: &[(char, Option<f64>, Option<f64>)], cols: &[(bool, Vec<(String
             .iter()
             .enumerate()
             .map(|(i, (ty, range, rhs))| Row {
-                name: if names.foreign_rows { row_names_f[i].to_string() } else { format!("OMMX_CONSTR_{}", row_ids[i]) },
+                name: if names.foreign_rows || (names.mixed && nrows >= 2 && i + 1 == nrows) { row_names_f[i].to_string() } else { format!("OMMX_CONSTR_{}", row_ids[i]) },
                 ty: *ty,
                 rhs: *rhs,
                 range: *range,
@@ -289,7 +298,7 @@ fn make_lp(rows: &[(char, Option<f64>, Option<f64>)], cols: &[(bool, Vec<(String
                     _ => {}
                 }
                 Col {
-                    name: if names.foreign_cols { col_names_f[j].to_string() } else { format!("OMMX_VAR_{}", col_ids[j]) },
+                    name: if names.foreign_cols || (names.mixed && ncols >= 2 && j + 1 == ncols) { col_names_f[j].to_string() } else { format!("OMMX_VAR_{}", col_ids[j]) },
                     integer_marker: *int,
                     bounds: bounds.clone(),
                     obj,
@@ -316,10 +325,11 @@ const SENSES: [SenseSpec; 5] = [SenseSpec::Absent, SenseSpec::InlineMax, SenseSp
 
 fn name_styles() -> Vec<Names> {
     vec![
-        Names { foreign_cols: true, foreign_rows: true, obj: "COST" },
-        Names { foreign_cols: false, foreign_rows: false, obj: "OBJ" },
-        Names { foreign_cols: true, foreign_rows: false, obj: "OBJ" },
-        Names { foreign_cols: false, foreign_rows: true, obj: "obj_row" },
+        Names { foreign_cols: true, foreign_rows: true, obj: "COST", mixed: false },
+        Names { foreign_cols: false, foreign_rows: false, obj: "OBJ", mixed: false },
+        Names { foreign_cols: true, foreign_rows: false, obj: "OBJ", mixed: false },
+        Names { foreign_cols: false, foreign_rows: true, obj: "obj_row", mixed: false },
+        Names { foreign_cols: false, foreign_rows: false, obj: "OBJ", mixed: true },
     ]
 }
 
@@ -329,7 +339,7 @@ fn fault_cases() -> Vec<Case> {
         &[(false, vec![("UP".into(), Some(4.0))]), (true, vec![("LO".into(), Some(1.0))]), (false, vec![])],
         Some(5.0),
         SenseSpec::InlineMax,
-        &Names { foreign_cols: true, foreign_rows: true, obj: "COST" },
+        &Names { foreign_cols: true, foreign_rows: true, obj: "COST", mixed: false },
         0,
     );
     let text = base.render(&Layout { five_fields: false, comments: false, blank_lines: false, wide: false });
@@ -452,7 +462,7 @@ pub fn run(ctx: &Ctx) -> Finish {
                 for (b, cb) in cols.iter().enumerate() {
                     let k = i + a * 7 + b * 13;
                     l.states += 1;
-                    let lp = make_lp(&r, &[ca.clone(), cb.clone()], if k % 2 == 0 { Some(5.0) } else { None }, SENSES[k % 5], &styles[k % 4], k % 4);
+                    let lp = make_lp(&r, &[ca.clone(), cb.clone()], if k % 2 == 0 { Some(5.0) } else { None }, SENSES[k % 5], &styles[k % styles.len()], k % 4);
                     check_case(l, &Case::Model { lp, layout: lays[k % lays.len()], reader: (k % 2) as u8 });
                 }
             }
@@ -463,14 +473,14 @@ pub fn run(ctx: &Ctx) -> Finish {
         ctx.par(n2, |l, i| {
             let r = [rows[i % rows.len()], rows[i / rows.len()]];
             l.states += 1;
-            let lp = make_lp(&r, &[cols[1].clone(), cols[cols.len() - 3].clone()], if i % 2 == 0 { Some(5.0) } else { None }, SENSES[i % 5], &styles[i % 4], i % 4);
+            let lp = make_lp(&r, &[cols[1].clone(), cols[cols.len() - 3].clone()], if i % 2 == 0 { Some(5.0) } else { None }, SENSES[i % 5], &styles[i % styles.len()], i % 4);
             check_case(l, &Case::Model { lp, layout: lays[i % lays.len()], reader: (i % 2) as u8 });
         });
         let n3 = cols.len() * cols.len();
         ctx.par(n3, |l, i| {
             let c = [cols[i % cols.len()].clone(), cols[i / cols.len()].clone()];
             l.states += 1;
-            let lp = make_lp(&[rows[4], rows[20]], &c, if i % 2 == 0 { Some(5.0) } else { None }, SENSES[i % 5], &styles[i % 4], i % 4);
+            let lp = make_lp(&[rows[4], rows[20]], &c, if i % 2 == 0 { Some(5.0) } else { None }, SENSES[i % 5], &styles[i % styles.len()], i % 4);
             check_case(l, &Case::Model { lp, layout: lays[i % lays.len()], reader: (i % 2) as u8 });
         });
     }
